@@ -26,11 +26,33 @@ func genFloat(t *rapid.T, label string) float64 {
 
 var strPool = []string{"", "a", "abc", "1", "10", "9", " 12 ", "1e3", "+1", "-0", "-5", "NaN", "Infinity", "-Infinity", "0x10", "0x1p4", "1_0",
 	".5", "5.", ".", "-", "--1", "1 2", " 12", "12 ", "\t4\n", "\r\n 7", "inf", "1E3", "é", "€uro", "𝄞clef", "é", "a'b", "a\"b", "a'\"b",
-	"x y", "  x  y  ", " em", "true", "false", "0", "00", "-.5", "1.", "007", "1.5", "ab", "ba", "aXb", "日本語"}
+	"x y", "  x  y  ", " em", "true", "false", "0", "00", "-.5", "1.", "007", "1.5", "ab", "ba", "aXb", "日本語",
+	// numerals with more digits than a double holds: the nearest double, decided by ALL the digits
+	"9007199254740993.00000000000000000000000000000000000000000001", "0.00000000000000000000001", "0.0000000000000000000000007", "3." + strings.Repeat("0", 60) + "1",
+	"0.1000000000000000055511151231257827021181583404541015625", "123456789012345678901234567890", "0.000000000000000000000000000000000000000000000000000001234567"}
 
 // longString repeats a pool string up to 33-300 characters (size thresholds:
 // small-buffer paths, lookup tables, chunked copies).
 func longString(t *rapid.T, label string) string {
+	if rapid.IntRange(0, 3).Draw(t, label+"Distinct") == 0 {
+		// 95 to 400 DIFFERENT characters (positions beyond 127 and 255 in lookup tables)
+		var sb strings.Builder
+		for r, n := rune(0x21), rapid.IntRange(95, 400).Draw(t, label+"DistinctLen"); n > 0; r, n = r+1, n-1 {
+			if r == 0x7f {
+				r = 0xa1
+			}
+			sb.WriteRune(r)
+		}
+		s := sb.String()
+		if rapid.Bool().Draw(t, label+"Reversed") {
+			rs := []rune(s)
+			for i, j := 0, len(rs)-1; i < j; i, j = i+1, j-1 {
+				rs[i], rs[j] = rs[j], rs[i]
+			}
+			s = string(rs)
+		}
+		return s
+	}
 	unit := []string{"ab", "a b ", "é", "𝄞x", "12", " ", "abc-", "x\ty\n"}[rapid.IntRange(0, 7).Draw(t, label+"Unit")]
 	n := []int{33, 64, 65, 100, 129, 257, 300}[rapid.IntRange(0, 6).Draw(t, label+"Len")]
 	var sb strings.Builder
